@@ -160,6 +160,7 @@ func (r *Run) WriteReplay(class string, files map[string]string) string {
 	dir := filepath.Join(OutDir, "replays", r.ID, safe)
 	os.MkdirAll(dir, 0o777)
 	for n, c := range files {
+		os.MkdirAll(filepath.Dir(filepath.Join(dir, n)), 0o777)
 		os.WriteFile(filepath.Join(dir, n), []byte(c), 0o666)
 	}
 	return dir
